@@ -350,7 +350,7 @@ def oracle(ctx):
                 conds.append(float(torch.linalg.cond(Ab - sh * Mj).max()))
             wellcond = max(conds) <= 30.0
             info["max_condition_number"] = max(conds)
-            if not warned and err > tol:
+            if not warned and not err <= tol:
                 ctx.fail("oracle", "solve:%s:%s:silent-but-wrong" % (meth, mode), info, err, "agrees with the dense reference (<= %g)" % tol)
             if warned and meth in ("exactsolve", "custom_exactsolve", "cg", "bicgstab", "broyden1") and wellcond \
                     and dtype != torch.float32 \
@@ -371,7 +371,7 @@ def oracle(ctx):
             # silence means: every column's residual is within the stopping tolerance max(rtol |b_j|, atol) of the defaults
             resid = (As @ X - Bs).norm(dim=-2)
             stop = torch.clamp(1e-6 * Bs.norm(dim=-2), min=1e-8)
-            if not warned and bool((resid > 10 * stop).any()):
+            if not warned and not bool((resid <= 10 * stop).all()):
                 ctx.fail("oracle", "solve:%s:small-rhs:silent-but-not-converged" % meth, {"method": meth, "rhs_scale": scale, "options": "defaults"},
                          {"residual_norms": resid.tolist(), "stopping_tolerance": stop.tolist(), "max_abs_X": float(X.abs().max())},
                          "residual within the stopping tolerance, or a ConvergenceWarning")
@@ -422,7 +422,7 @@ def corpus_cases(ctx):
         if not warned:
             res = (A @ X - B).norm(dim=0)
             thr = torch.clamp(c["options"]["rtol"] * B.norm(dim=0), min=c["options"]["atol"])
-            if bool((res > 1.2 * thr).any()):
+            if not bool((res <= 1.2 * thr).all()):
                 ctx.fail("oracle", "solve:%s:silent-but-column-not-converged" % c["method"], {"corpus": i, "what": c["what"][:120]},
                          {"resid": res, "threshold": thr}, "every column's residual below max(rtol |b_j|, atol)")
 
@@ -449,7 +449,7 @@ def scaled_columns_probe(ctx, ntrials):
             if not warned:
                 res = (A @ X - B).norm(dim=0)
                 thr = torch.clamp(1e-6 * B.norm(dim=0), min=1e-8)
-                if bool((res > 3 * thr).any()):
+                if not bool((res <= 3 * thr).all()):
                     ctx.fail("oracle", "solve:%s:silent-but-column-not-converged" % fn.__name__,
                              {"n": n, "column_scales": scales.tolist(), "trial": t}, {"resid": res, "threshold": thr},
                              "every column's residual below max(rtol |b_j|, atol)")
